@@ -206,6 +206,11 @@ pub fn property() -> Property {
     tape!("inverse-trs-wide-rat", wt, 48, 10_000, 400_000, wide::inverse_trs_wide::<Rat>);
     tape!("inverse-trs-wide-f64", wt, 48, 10_000, 400_000, wide::inverse_trs_wide::<f64>);
     tape!("inverse-trs-wide-f32", wt, 48, 10_000, 400_000, wide::inverse_trs_wide::<f32>);
+    let wo = "rigid / T*R*S matrices whose rotation block is a float-ROUNDED rotation (sin/cos about x, y, z, Rodrigues about a rational axis, or through a unit quaternion, computed in f64 and rounded to the domain; small angles down to 2^-30 (f32) / 2^-60 (f64), angles next to multiples of pi/2, ordinary angles, many turns) so that entries round to exactly 0 / 1 / -1 while their neighbours do not: all three inverses (+ in-place), both layouts, two-sided residual in doubled precision on the matrix as stored, relative to sum |a||g| per entry; same scale and translation regimes as *-wide";
+    tape!("inverse-rigid-rounded-f64", wo, 48, 10_000, 400_000, wide::inverse_rigid_rounded::<f64>);
+    tape!("inverse-rigid-rounded-f32", wo, 48, 10_000, 400_000, wide::inverse_rigid_rounded::<f32>);
+    tape!("inverse-trs-rounded-f64", wo, 64, 10_000, 400_000, wide::inverse_trs_rounded::<f64>);
+    tape!("inverse-trs-rounded-f32", wo, 64, 10_000, 400_000, wide::inverse_trs_rounded::<f32>);
     let wd = "determinant (both layouts, transposed, layout-converted, of a product) on structured families (triangular, diagonal, permutation, singular, sparse, affine row/column, (anti)symmetric, block, rank-one update, dense) with rows and columns scaled by exact powers of two: equals the exact determinant * 2^(sum of exponents)";
     tape!("det2-wide-rat", wd, 80, 4_000, 150_000, wide::det2_wide::<Rat>);
     tape!("det3-wide-rat", wd, 80, 4_000, 150_000, wide::det3_wide::<Rat>);
